@@ -542,6 +542,122 @@ def t_comp_to_loop(tree):
     return _CompToLoop().visit(tree)
 
 
+class _FStringToFormat(ast.NodeTransformer):
+    """f"a {x} b {y.name}" -> "a {} b {}".format(x, y.name) for f-strings
+    without conversions or format specs (literal braces are doubled)"""
+
+    def visit_JoinedStr(self, node):
+        self.generic_visit(node)
+        parts = []
+        args = []
+        for v in node.values:
+            if isinstance(v, ast.Constant):
+                parts.append(str(v.value).replace('{', '{{').replace(
+                    '}', '}}'))
+            elif isinstance(v, ast.FormattedValue):
+                if v.conversion != -1 or v.format_spec is not None:
+                    return node
+                parts.append('{}')
+                args.append(v.value)
+            else:
+                return node
+        if not args:
+            return node
+        new = ast.Call(
+            func=ast.Attribute(value=ast.Constant(value=''.join(parts)),
+                               attr='format', ctx=ast.Load()),
+            args=args, keywords=[])
+        return ast.copy_location(new, node)
+
+
+def t_fstring_to_format(tree):
+    return _FStringToFormat().visit(tree)
+
+
+class _SplitAnd(ast.NodeTransformer):
+    """`if a and b: X` (no else) -> `if a:` + `if b: X`"""
+
+    def visit_If(self, node):
+        self.generic_visit(node)
+        if isinstance(node.test, ast.BoolOp) and isinstance(
+                node.test.op, ast.And) and not node.orelse \
+                and len(node.test.values) == 2:
+            a, b = node.test.values
+            inner = ast.If(test=b, body=node.body, orelse=[])
+            ast.copy_location(inner, node)
+            node.test = a
+            node.body = [inner]
+        return node
+
+
+def t_split_and(tree):
+    return _SplitAnd().visit(tree)
+
+
+class _WithMerge(ast.NodeTransformer):
+    """`with A as a:` whose whole body is `with B as b: ...` becomes
+    `with A as a, B as b: ...`"""
+
+    def visit_With(self, node):
+        self.generic_visit(node)
+        while len(node.body) == 1 and isinstance(node.body[0], ast.With):
+            inner = node.body[0]
+            node.items = node.items + inner.items
+            node.body = inner.body
+        return node
+
+
+def t_with_merge(tree):
+    return _WithMerge().visit(tree)
+
+
+class _UnpackSplit(ast.NodeTransformer):
+    """`a, b = f(...)` (plain names, a call on the right) ->
+    `u_tmp_ = f(...); a = u_tmp_[0]; b = u_tmp_[1]`"""
+
+    def __init__(self):
+        self.k = 0
+
+    def _rewrite(self, stmts):
+        out = []
+        for st in stmts:
+            if isinstance(st, ast.Assign) and len(st.targets) == 1 \
+                    and isinstance(st.targets[0], ast.Tuple) \
+                    and all(isinstance(e, ast.Name)
+                            for e in st.targets[0].elts) \
+                    and isinstance(st.value, ast.Call):
+                self.k += 1
+                tmp = f'u_tmp_{self.k}_'
+                first = ast.Assign(
+                    targets=[ast.Name(id=tmp, ctx=ast.Store())],
+                    value=st.value)
+                ast.copy_location(first, st)
+                out.append(first)
+                for i, e in enumerate(st.targets[0].elts):
+                    a = ast.Assign(
+                        targets=[ast.Name(id=e.id, ctx=ast.Store())],
+                        value=ast.Subscript(
+                            value=ast.Name(id=tmp, ctx=ast.Load()),
+                            slice=ast.Constant(value=i), ctx=ast.Load()))
+                    ast.copy_location(a, st)
+                    out.append(a)
+            else:
+                out.append(st)
+        return out
+
+    def generic_visit(self, node):
+        node = super().generic_visit(node)
+        for field in ('body', 'orelse', 'finalbody'):
+            v = getattr(node, field, None)
+            if isinstance(v, list) and v and isinstance(v[0], ast.stmt):
+                setattr(node, field, self._rewrite(v))
+        return node
+
+
+def t_unpack_split(tree):
+    return _UnpackSplit().visit(tree)
+
+
 def t_opaque_locals(tree):
     return t_rename_locals(tree, suffix=None)
 
@@ -561,6 +677,10 @@ TRANSFORMS = {
     'temp-cond': t_temp_cond,
     'early-continue': t_early_continue,
     'comp-to-loop': t_comp_to_loop,
+    'fstring-to-format': t_fstring_to_format,
+    'split-and': t_split_and,
+    'with-merge': t_with_merge,
+    'unpack-split': t_unpack_split,
 }
 
 
